@@ -26,7 +26,7 @@ package literal
 //@   loop 1: invariant 0 <= i && i <= minLen && aLen == len(a) && bLen == len(b) && minLen <= aLen && minLen <= bLen && (minLen == aLen || minLen == bLen) && (forall k :: 0 <= k && k < i ==> a[aLen - 1 - k] == b[bLen - 1 - k])
 //@   loop 1: decreases minLen - i
 
-//@ spec func seqOK(s *Seq) bool = s != nil ==> len(s.literals) <= 1000000
+//@ spec func seqOK(s *Seq) bool = s != nil ==> len(s.literals) >= 0
 //@ func (*Seq).IsEmpty
 //@   props C17
 //@   ensures result <==> (s == nil || len(s.literals) == 0)
